@@ -653,6 +653,31 @@ func c06ShowFrom(c *Ctx, cs c06Case) {
 	// known finding): samples, location lists and line lists only lose root-side elements
 	if re != nil { // also when the frame rule failed: inside the known finding this still has to hold
 		if in, e := ParseCanon(cs.Profile); e == nil {
+			// theorem showFrom_frames_only_removed: kept samples embed in order, frames as a subsequence
+			inV := viewList(in)
+			j := 0
+			for i, v := range real {
+				hd, fa := viewFrames(v)
+				found := false
+				for ; j < len(inV) && !found; j++ {
+					hb, fb := viewFrames(inV[j])
+					if hb != hd {
+						continue
+					}
+					k := 0
+					for _, f := range fb {
+						if k < len(fa) && fa[k] == f {
+							k++
+						}
+					}
+					found = k == len(fa)
+				}
+				if !found {
+					oracleFailed = true
+					c.Violation("C06/show_from/frames-not-a-subsequence", fmt.Sprintf("ShowFrom(%q): kept sample %d (%s) is not, in order, an original sample with frames removed", cs.Opts["show_from"], i, c06trunc(v)), cs)
+					break
+				}
+			}
 			if msg := c06ShowFromRemovesOnly(in, p); msg != "" {
 				oracleFailed = true
 				c.Violation("C06/show_from/not-a-leaf-side-prefix", fmt.Sprintf("ShowFrom(%q) did more than remove root-side frames or whole samples: %s", cs.Opts["show_from"], msg), cs)
